@@ -71,7 +71,10 @@ def obsOfVM : VM.Outcome → Option Obs
 
 /-- The property at full strength on the model: on every well-formed program on which the
 call-by-need reference evaluator terminates, the machine (given enough fuel) shows the same
-class, value and trace of effects. NOT proved (it is C02's `CompileCorrect`). -/
+class, value and trace of effects. NOT proved in full (it is C02's `CompileCorrect`); it IS
+proved on the fragment of programs with lazy parameters, `force`, closures, tail calls, apply/map
+covered by C02's simulation: `ZygoVerif.C02.lazy_semantics_on_F3lazy` in Props/C02.lean (which
+imports this file and restates this very definition restricted to that fragment). -/
 def LazySemantics : Prop :=
   ∀ (p : List Expr), Ref.wfList {} p = true →
     ∀ fuel o, obsOfRef (Ref.runProgram fuel p Ref.initSt).1 = some o →
